@@ -19,6 +19,14 @@ type FileWriter struct {
 	entryCount uint64
 	closed     bool
 	swampName  string // Swamp name for V3 format (written after header)
+
+	// broken is set while a failed block write has not been rolled back. The
+	// file then ends in a partial block; appending more blocks behind it would
+	// make them unreadable, so nothing is written until the rollback to
+	// rollbackOffset has succeeded (it is retried before every flush; reopening
+	// the file cuts the partial block off as well).
+	broken         bool
+	rollbackOffset int64
 }
 
 // NewFileWriter creates a new file writer for the given path.
@@ -269,6 +277,14 @@ func (fw *FileWriter) Flush() error {
 
 // flushLocked writes the buffer to disk (must be called with lock held)
 func (fw *FileWriter) flushLocked() error {
+	if fw.broken {
+		// a previous failed write could not be rolled back; try again first
+		fw.rollbackTo(fw.rollbackOffset)
+		if fw.broken {
+			return ErrWriterBroken
+		}
+	}
+
 	header, compressed, err := fw.buffer.Flush()
 	if err != nil {
 		return err
@@ -278,13 +294,19 @@ func (fw *FileWriter) flushLocked() error {
 		return nil // Nothing to flush
 	}
 
-	// Write block header
-	if _, err := fw.file.Write(header.Serialize()); err != nil {
+	// Remember where the block starts so a failed write can be rolled back
+	blockStart, err := fw.file.Seek(0, io.SeekCurrent)
+	if err != nil {
 		return err
 	}
 
-	// Write compressed data
+	// Write block header and compressed data
+	if _, err := fw.file.Write(header.Serialize()); err != nil {
+		fw.rollbackTo(blockStart)
+		return err
+	}
 	if _, err := fw.file.Write(compressed); err != nil {
+		fw.rollbackTo(blockStart)
 		return err
 	}
 
@@ -294,24 +316,35 @@ func (fw *FileWriter) flushLocked() error {
 
 	// Update file header on disk so EntryCount/BlockCount are always current.
 	// This avoids stale 0/0 values when the file is read before Close()/Sync().
-	// Cost: 2 seeks + 64B write per block, no fsync.
+	// Cost: one 64B positioned write per block, no fsync.
+	return fw.writeFileHeader()
+}
+
+// rollbackTo removes a partially written block after a failed write (disk
+// full, I/O error). Left in place, the partial block would sit in the middle
+// of the file once later blocks are appended and make them - or, through a
+// checksum error, the whole file - unreadable.
+func (fw *FileWriter) rollbackTo(offset int64) {
+	fw.rollbackOffset = offset
+	fw.broken = true
+	if err := fw.file.Truncate(offset); err != nil {
+		return
+	}
+	if _, err := fw.file.Seek(offset, io.SeekStart); err != nil {
+		return
+	}
+	fw.broken = false
+}
+
+// writeFileHeader stores the current counts in the file header. It uses a
+// positioned write so that the append position is never moved: with
+// seek/write/seek a failed header write left the position inside the header
+// and the next block overwrote the beginning of the file.
+func (fw *FileWriter) writeFileHeader() error {
 	fw.header.BlockCount = fw.blockCount
 	fw.header.EntryCount = fw.entryCount
-	currentPos, err := fw.file.Seek(0, io.SeekCurrent)
-	if err != nil {
-		return err
-	}
-	if _, err := fw.file.Seek(0, io.SeekStart); err != nil {
-		return err
-	}
-	if _, err := fw.file.Write(fw.header.Serialize()); err != nil {
-		return err
-	}
-	if _, err := fw.file.Seek(currentPos, io.SeekStart); err != nil {
-		return err
-	}
-
-	return nil
+	_, err := fw.file.WriteAt(fw.header.Serialize(), 0)
+	return err
 }
 
 // Sync flushes the buffer and syncs to disk
@@ -329,20 +362,7 @@ func (fw *FileWriter) Sync() error {
 	}
 
 	// Update header with current counts
-	fw.header.BlockCount = fw.blockCount
-	fw.header.EntryCount = fw.entryCount
-
-	// Seek to beginning and update header
-	if _, err := fw.file.Seek(0, io.SeekStart); err != nil {
-		return err
-	}
-
-	if _, err := fw.file.Write(fw.header.Serialize()); err != nil {
-		return err
-	}
-
-	// Seek back to end
-	if _, err := fw.file.Seek(0, io.SeekEnd); err != nil {
+	if err := fw.writeFileHeader(); err != nil {
 		return err
 	}
 
@@ -361,21 +381,13 @@ func (fw *FileWriter) Close() error {
 
 	// Flush remaining buffer
 	if err := fw.flushLocked(); err != nil {
+		fw.closed = true
 		fw.file.Close()
 		return err
 	}
 
 	// Update header
-	fw.header.BlockCount = fw.blockCount
-	fw.header.EntryCount = fw.entryCount
-
-	// Seek to beginning and update header
-	if _, err := fw.file.Seek(0, io.SeekStart); err != nil {
-		fw.file.Close()
-		return err
-	}
-
-	if _, err := fw.file.Write(fw.header.Serialize()); err != nil {
+	if err := fw.writeFileHeader(); err != nil {
 		fw.file.Close()
 		return err
 	}
